@@ -853,6 +853,103 @@ fn funcs(r: &mut Runner, t: bool) {
     }
 }
 
+/// Every key type the crate hashes (all primitive integers, strings and string references, slices of every
+/// primitive integer) x both signature widths: n distinct keys that share as much as possible - slices that
+/// differ only in their last element, integers that differ only in their low or only in their high bytes -
+/// so that a signature computed from part of the key makes keys collide. Functions must map every key to its
+/// value; filters must contain every key and must not contain 2000 probes that differ from members in the same way.
+macro_rules! keytype_case {
+    ($r:expr, $filter:expr, $name:expr, $T:ty, $S:ty, $mk:expr) => {{
+        let r: &mut Runner = $r;
+        let filter: bool = $filter;
+        let n: usize = 1000;
+        let p = if filter { "C08" } else { "C07" };
+        let name: &str = $name;
+        if r.ctx.case(|| format!("VBuilder::<key type> {} keys={name} sig={} n={n}", if filter { "filter" } else { "function" }, stringify!($S))) {
+            r.ctx.nontrivial();
+            let mk = $mk;
+            let keys: Vec<$T> = (0..n).map(&mk).collect();
+            let res = guard(|| -> Result<(usize, usize, usize), String> {
+                if filter {
+                    let f = VBuilder::<u8, Box<[u8]>, $S, FuseLge3NoShards>::default()
+                        .expected_num_keys(n)
+                        .try_build_filter(FromIntoIterator::from(keys.clone()), no_logging![])
+                        .map_err(|e| format!("{e:#}"))?;
+                    let missing = keys.iter().filter(|k| !f.contains(*k)).count();
+                    let fpos = (n..n + 2000).filter(|&j| f.contains(mk(j))).count();
+                    Ok((f.len(), missing, fpos))
+                } else {
+                    let f = VBuilder::<u8, Box<[u8]>, $S, FuseLge3NoShards>::default()
+                        .expected_num_keys(n)
+                        .try_build_func(FromIntoIterator::from(keys.clone()), FromIntoIterator::from((0..n).map(|i| (i % 251) as u8)), no_logging![])
+                        .map_err(|e| format!("{e:#}"))?;
+                    let wrong = keys.iter().enumerate().filter(|(i, k)| f.get(*k) != (i % 251) as u8).count();
+                    Ok((f.len(), wrong, 0))
+                }
+            });
+            r.after_build(&format!("key type {name}"));
+            match res {
+                Outcome::Panic(m) => r.ctx.violation(&format!("{p}|VBuilder::<key-type-{name}>|panic"), format!("sig={}: {m}", stringify!($S))),
+                Outcome::Ret(Err(e)) => r.ctx.violation(&format!("{p}|VBuilder::<key-type-{name}>|error"), format!("sig={}: distinct keys, but the build returned {e}", stringify!($S))),
+                Outcome::Ret(Ok((len, bad, fpos))) => {
+                    if len != n || bad > 0 {
+                        r.ctx.violation(&format!("{p}|VBuilder::<key-type-{name}>|wrong-values"), format!("sig={}: len() = {len}, {bad} of {n} keys wrong / not contained", stringify!($S)));
+                    }
+                    // 8-bit hashes, 2000 probes: 7.8 expected, 40 is beyond 10 standard deviations
+                    if fpos > 40 {
+                        r.ctx.violation(&format!("{p}|VBuilder::<key-type-{name}>|false-positive-rate"), format!("sig={}: {fpos} of 2000 non-members that differ from members only in their last part are contained", stringify!($S)));
+                    }
+                }
+            }
+        }
+    }};
+}
+
+fn key_types(r: &mut Runner, filter: bool) {
+    macro_rules! both {
+        ($name:expr, $T:ty, $mk:expr) => {
+            keytype_case!(r, filter, $name, $T, [u64; 2], $mk);
+            keytype_case!(r, filter, $name, $T, [u64; 1], $mk);
+        };
+    }
+    // integers: distinct in the low bytes only, and (wide types) in the high bytes only
+    both!("u16", u16, |i: usize| i as u16);
+    both!("i16", i16, |i: usize| i as i16 - 500);
+    both!("u32", u32, |i: usize| i as u32);
+    both!("u32-high-bytes", u32, |i: usize| (i as u32) << 20 | 7);
+    both!("i32", i32, |i: usize| -(i as i32));
+    both!("u64-high-bytes", u64, |i: usize| (i as u64) << 48 | 0xABCD);
+    both!("i64", i64, |i: usize| i as i64 - 300);
+    both!("u128", u128, |i: usize| i as u128);
+    both!("u128-high-bytes", u128, |i: usize| (i as u128) << 100 | 99);
+    both!("i128", i128, |i: usize| -(i as i128) << 64);
+    both!("isize", isize, |i: usize| i as isize - 1);
+    both!("usize-high-bytes", usize, |i: usize| i << 50 | 1);
+    // strings by value and by reference
+    both!("String", String, |i: usize| format!("a-rather-long-common-prefix-shared-by-all-the-keys-{i}"));
+    both!("&str", &'static str, |i: usize| -> &'static str { Box::leak(format!("common-prefix-{i}").into_boxed_str()) });
+    both!("&String", &'static String, |i: usize| -> &'static String { Box::leak(Box::new(format!("common-prefix-{i}"))) });
+    // slices: three elements, only the last one differs
+    macro_rules! sl {
+        ($name:expr, $E:ty) => {
+            both!($name, &'static [$E], |i: usize| -> &'static [$E] { Box::leak(vec![7 as $E, 7 as $E, i as $E].into_boxed_slice()) });
+        };
+    }
+    sl!("&[u8]-len3", u16); // (u8 cannot hold 3000 distinct last elements: the u16 case stands in, and the one below uses u8 with 4 elements)
+    both!("&[u8]", &'static [u8], |i: usize| -> &'static [u8] { Box::leak(vec![9u8, 9, (i >> 8) as u8, i as u8].into_boxed_slice()) });
+    both!("&[i8]", &'static [i8], |i: usize| -> &'static [i8] { Box::leak(vec![9i8, 9, (i >> 7) as i8, (i & 127) as i8].into_boxed_slice()) });
+    sl!("&[u16]", u16);
+    sl!("&[i16]", i16);
+    sl!("&[u32]", u32);
+    sl!("&[i32]", i32);
+    sl!("&[u64]", u64);
+    sl!("&[i64]", i64);
+    sl!("&[u128]", u128);
+    sl!("&[i128]", i128);
+    sl!("&[usize]", usize);
+    sl!("&[isize]", isize);
+}
+
 /// Regimes of the default logic far above the linear-solving sizes: the expansion factor changes at 5, 10 and
 /// 20 million keys, sharding resumes above 2 x 10 million keys, the default peeler changes with the number of
 /// shards. One build per size (a 45-million-key build takes 5 s and 2 GB).
@@ -945,8 +1042,10 @@ fn main() {
         crafted_failures(&mut r, false, t);
         very_large(&mut r, t);
         perturbed_schedules(&mut r, t);
+        key_types(&mut r, false);
     } else {
         crafted_failures(&mut r, true, t);
+        key_types(&mut r, true);
         filters(&mut r, t);
         seed_sweep(&mut r, true, t);
     }
